@@ -854,9 +854,11 @@ fn parse_nth_child_args(text: &str) -> IResult<&str, SelectorComponent> {
                 tag("n"),
                 skip_optional_whitespace,
                 sign,
+                // "2n + 1": whitespace is allowed on both sides of the sign.
+                skip_optional_whitespace,
                 digit1,
             )),
-            |(a_sign, a_opt_val, _, _, b_sign, b_val)| -> Result<(i32, i32), std::num::ParseIntError> {
+            |(a_sign, a_opt_val, _, _, b_sign, _, b_val)| -> Result<(i32, i32), std::num::ParseIntError> {
                 let a = <i32 as FromStr>::from_str(a_opt_val.unwrap_or("1"))? * a_sign.val();
                 let b = <i32 as FromStr>::from_str(b_val)? * b_sign.val();
                 Ok((a, b))
@@ -974,8 +976,12 @@ pub(crate) fn parse_selector(text: &str) -> IResult<&str, Selector> {
 
 fn parse_ruleset(text: &str) -> IResult<&str, RuleSet> {
     let (rest, _) = skip_optional_whitespace(text)?;
-    let (rest, selectors) =
-        separated_list0(tuple((tag(","), skip_optional_whitespace)), parse_selector)(rest)?;
+    let (rest, selectors) = separated_list0(
+        // (Whitespace before the comma is not always eaten by the selector,
+        // e.g. after a pseudo-element.)
+        tuple((skip_optional_whitespace, tag(","), skip_optional_whitespace)),
+        parse_selector,
+    )(rest)?;
     let (rest, (_ws1, _bra, _ws2, declarations, _ws3, _optsemi, _ws4, _ket, _ws5)) = tuple((
         skip_optional_whitespace,
         tag("{"),
